@@ -1,10 +1,14 @@
 #!/usr/bin/env python3
-"""Scripted url_rewrite helper (concurrency channel ids). argv[1] = control directory.
-Reads <dir>/plan.json: {"batch": N, "order": [k...], "cuts": [[k, j]...], "pause": s, "noreply": [k...],
-"strays": [[k, what]...]}  (a stray reply line is written in front of the reply of k: what = "dup:<k2>" repeats the channel id
-of the already written reply of k2, "chan:<n>" uses channel id n; the payload of a stray names no request)
-collects N request lines, then writes the reply lines in the given order (k = token at the end of the URL path),
-cutting the byte stream at the given offsets inside the reply of k, each fragment in its own write() with a pause.
+"""Scripted helper (url_rewrite or external_acl). argv[1] = control directory.
+Reads <dir>/plan.json: {"mode": "rewrite"|"extacl"|"serial", "batch": N, "order": [k...], "cuts": [[k, j]...], "pause": s,
+"noreply": [k...], "strays": [[k, what]...]}
+  rewrite / extacl (concurrent channels): collects N request lines "<chan> <url> ...", then writes the reply lines in the
+     given order (k = token at the end of the URL path), cutting the byte stream at the given offsets inside the reply of k,
+     each fragment in its own write() with a pause.  A stray reply line is written in front of the reply of k: what =
+     "dup:<k2>" repeats the channel id of the already written reply of k2, "chan:<n>" uses channel id n; the payload of a
+     stray names no request.  Reply payloads: rewrite: OK rewrite-url=".../rw/<k>"; extacl: OK user=<k>.
+  serial (no channel ids, one request at a time): every request line "<url> ..." is answered at once with
+     OK rewrite-url=".../rw/<k>", the reply bytes cut at the offsets listed for k.
 Logs what it saw / wrote to <dir>/helper.ndjson."""
 import json, os, sys, time
 
@@ -28,10 +32,46 @@ for _ in range(2000):
     time.sleep(0.005)
 if plan is None:
     plan = {'batch': 1, 'order': [], 'cuts': [], 'pause': 0.01}
-got = {}
-buf = b''
+mode = plan.get('mode', 'rewrite')
 inp = sys.stdin.buffer
 fd = inp.fileno()
+out = sys.stdout.buffer
+buf = b''
+
+
+def payload(base, k):
+    return ('OK user=%s' % k) if mode == 'extacl' else ('OK rewrite-url="%s/rw/%s"' % (base, k))
+
+
+def write_cut(data, cuts):
+    prev = 0
+    for c in sorted(set(cuts)) + [len(data)]:
+        if c <= prev or c > len(data):
+            continue
+        os.write(out.fileno(), data[prev:c])
+        L(e='HWrite', data=data[prev:c].decode('latin-1'))
+        prev = c
+        time.sleep(plan.get('pause', 0.01))
+
+
+if mode == 'serial':
+    while True:
+        data = os.read(fd, 65536)
+        if not data:
+            break
+        buf += data
+        while b'\n' in buf:
+            line, buf = buf.split(b'\n', 1)
+            url = line.decode('latin-1').split(' ')[0]
+            k = url.rstrip('/').split('/')[-1]
+            L(e='HRecv', chan=0, k=k)
+            base = url.rsplit('/orig/', 1)[0]
+            rep = (payload(base, k) + '\n').encode()
+            write_cut(rep, [j for kk, j in plan.get('cuts', []) if kk == k and 0 < j < len(rep)])
+            L(e='HDone', order=[k])
+    sys.exit(0)
+
+got = {}
 while len(got) < plan['batch']:
     data = os.read(fd, 65536)
     if not data:
@@ -62,24 +102,16 @@ for k in order:
         if kind == 'chan' and any(c == schan for c, _ in got.values()):
             continue        # that channel is in use: not a stray
         nstray += 1
-        stream += ('%s OK rewrite-url="%s/rw/STRAY%d"\n' % (schan, base, nstray)).encode()
+        stream += ('%s %s\n' % (schan, payload(base, 'STRAY%d' % nstray))).encode()
         L(e='HStray', chan=int(schan), before=k, what=what)
-    line = ('%s OK rewrite-url="%s/rw/%s"\n' % (chan, base, k)).encode()
+    line = ('%s %s\n' % (chan, payload(base, k))).encode()
     for kk, j in plan.get('cuts', []):
         if kk == k and 0 < j < len(line):
             cutpos.append(len(stream) + j)
     stream += line
-prev = 0
-out = sys.stdout.buffer
-for c in sorted(set(cutpos)) + [len(stream)]:
-    if c <= prev:
-        continue
-    os.write(out.fileno(), stream[prev:c])
-    L(e='HWrite', data=stream[prev:c].decode('latin-1'))
-    prev = c
-    time.sleep(plan.get('pause', 0.01))
+write_cut(stream, cutpos)
 L(e='HDone', order=order)
-# keep serving later requests plainly (no rewrite) until EOF
+# keep serving later requests plainly (no rewrite / deny) until EOF
 while True:
     data = os.read(fd, 65536)
     if not data:
